@@ -114,7 +114,9 @@ def absorb_A(res, mod, jobs, results):
         states = [m["state"] for m in r["messages"]]
         if job.mode == "reach":
             if not any(s in ("POST_FAIL",) for s in states):
-                res["harness_errors"].append(f"vacuity twin of {job.fn} was not refuted (states {states}): the harness never reaches its assertion")
+                # not refuted within its (short) time limit: reachability is then established by
+                # the cases the check partitions of the same function record (decided below)
+                res.setdefault("_unrefuted_twins", {})[job.fn] = states
             continue
         res["partitions"] += 1
         if r.get("skipped"):
@@ -156,6 +158,9 @@ def absorb_A(res, mod, jobs, results):
             res["harness_errors"].append(f"{job.label}: unable to meet precondition")
         else:
             res["inconclusive"].append(f"{job.label}: {states or 'no verdict'} after {r['num_paths']} paths / {r['wall_s']}s")
+    for fn, states in res.pop("_unrefuted_twins", {}).items():
+        if res["per_fn"].get(fn, {}).get("cases", 0) == 0:
+            res["harness_errors"].append(f"vacuity twin of {fn} was not refuted (states {states}) and no partition of it recorded a case: the harness never reaches its assertion")
 
 
 def confirm_known_hits(res, mod):
